@@ -271,7 +271,7 @@ impl<'a> World<'a> {
                 collision = Some(ri);
             }
         }
-        let ordered = !self.cfg.v5 && !self.any_q2 && self.acks_in_order;
+        let ordered = !self.cfg.v5 && self.acks_in_order;
         tr!(
             self.rep,
             "carry: regs=[{}] all={} ordered={ordered} interrupted={interrupted}",
